@@ -116,6 +116,38 @@ def gen_map(rnd, colliding=True):
     return m
 
 
+def gen_redeclare_case(rnd):
+    """(source, mapping) pairs in which the default prefix has to be taken away from a namespace that is NOT the first
+    one collected: the caller gives the root's namespace (or an attribute namespace of the root) a non-empty prefix and
+    declares a default namespace that a descendant uses, and an un-namespaced element or attribute comes later in
+    breadth-first order (Serializer.__redeclare_empty_prefix must find the holder of '' wherever it sits)."""
+    uris = ["u:r", "u:d", "u:e", "u:f"]
+    rnd.shuffle(uris)
+    ur, ud, ue = uris[:3]
+    extra = ' xmlns:e="%s" e:k="v"' % ue if rnd.random() < .4 else ""
+    plain = rnd.choice(["<plain/>", "<plain k='1'/>", "<plain>t</plain>"])
+    inner = rnd.choice([
+        "<d:item>%s</d:item>" % plain,
+        "<d:item/><r:x>%s</r:x>" % plain,
+        "<d:item><d:sub/></d:item>%s" % plain,
+        "<r:x><d:item/></r:x><r:y>%s</r:y>" % plain,
+        "<d:item d:a='1'/><r:x><r:y>%s</r:y></r:x>" % plain,
+    ])
+    src = '<r:root xmlns:r="%s" xmlns:d="%s"%s>%s</r:root>' % (ur, ud, extra, inner)
+    m = {}
+    order = rnd.random()
+    dkey = rnd.choice([None, ""])
+    if order < .5:
+        m["r"] = ur
+        m[dkey] = ud
+    else:
+        m[dkey] = ud
+        m[rnd.choice(["r", "p", "xmlx"])] = ur
+    if extra and rnd.random() < .5:
+        m["e"] = ue
+    return src, m
+
+
 def caller_term(m):
     if not m:
         return "[]"
